@@ -89,6 +89,19 @@ def documents(pm: ProgramModel, mb: ModelBuilder) -> dict[str, list[tuple[str, A
     for k in kid_ids:
         gd["features"][k]["optional"] = False
     docs["GlencoeReader"].append(("third-party/group-of-mandatory-children", json.dumps(gd), None))
+    # degenerate but parseable third-party documents: a relation without members, a <var/> without text
+    docs["XMLReader"].append(("third-party/relation-without-members",
+                              b'<feature-model><feature name="R"><setRelation name="r1"><cardinality min="1" max="1"/>'
+                              b'</setRelation><binaryRelation name="r2"><cardinality min="0" max="1"/>'
+                              b'<solitaryFeature name="A"/></binaryRelation></feature></feature-model>', None))
+    docs["JSONReader"].append(("third-party/relation-without-children", json.dumps(
+        {"name": "m", "features": {"name": "R", "abstract": False, "relations": [
+            {"type": "XOR", "card_min": 1, "card_max": 1, "children": []},
+            {"type": "OPTIONAL", "card_min": 0, "card_max": 1, "children": [{"name": "A", "abstract": False, "relations": []}]}]},
+         "constraints": []}), None))
+    docs["FeatureIDEReader"].append(("third-party/var-without-text",
+                                     b'<featureModel><struct><and name="R"><feature name="A"/></and></struct><constraints>'
+                                     b'<rule><imp><var/><var>A</var></imp></rule></constraints></featureModel>', None))
     m = c07.fide_rich(mb)
     docs["FeatureIDEReader"].append(("written/rich", written("FeatureIDEWriter", m), m))
     docs["FeatureIDEReader"].append(("third-party/explicit-false+graphics",
@@ -109,6 +122,10 @@ def documents(pm: ProgramModel, mb: ModelBuilder) -> dict[str, list[tuple[str, A
     docs["XMLReader"].append(("third-party/extras+cardinality-last",
                               c09.fama_doc(ref9, extra=True, card_after=True).encode("utf8"), ref9))
     return docs
+
+
+MAY_BE_REJECTED = {"third-party/relation-without-members", "third-party/relation-without-children",
+                   "third-party/var-without-text"}
 
 
 def _find(tree: dict[str, Any], fid: str) -> dict[str, Any]:
@@ -159,6 +176,11 @@ def check(pm: ProgramModel, ctx: Ctx) -> None:
                 r = run_reader(pm, reader, vfs, setup=both)
                 executed |= r["interp"].sites
                 if r["raise"]:
+                    if label in MAY_BE_REJECTED and r["raise"][0].startswith(("FlamaException", "ParsingException")):
+                        # a degenerate document: "whatever document a reader accepts" - it need not accept this one,
+                        # but then with the library's own error
+                        ctx.ok("C02-READS", f"{reader}:{label}", where, f"degenerate document reported as a library error")
+                        continue
                     ctx.violation("C02-READS", f"{reader}:{label}:raises", r["raise"][1] or where,
                                   f"{reader} rejects the document {label}: {r['raise'][0]}")
                     continue
